@@ -260,6 +260,36 @@ Fixpoint searchc (r : re) (p : option char) (s : list char) : bool :=
 Definition matchb (r : sre) (s : list char) : bool := matchc (desugar false r) None s None.
 Definition searchb (r : sre) (s : list char) : bool := searchc (desugar false r) None s.
 
+(** length of the longest prefix of [s] (the rest of the subject) that matches, if any *)
+Fixpoint longest (r : re) (p : option char) (s : list char) : option nat :=
+  match (match s with
+         | [] => None
+         | c :: s' => option_map S (longest (deriv p c r) (Some c) s')
+         end) with
+  | Some k => Some k
+  | None => if nullable r p (firstc s None) then Some O else None
+  end.
+
+(** leftmost start at or after the current position [i], longest end for that start *)
+Fixpoint search_from (r : re) (p : option char) (s : list char) (i : nat) : option (nat * nat) :=
+  match longest r p s with
+  | Some k => Some (i, (i + k)%nat)
+  | None => match s with [] => None | c :: s' => search_from r (Some c) s' (S i) end
+  end.
+
+(** the span POSIX leftmost-longest matching reports for a search of the whole subject *)
+Definition search_span (r : sre) (s : list char) : option (nat * nat) :=
+  search_from (desugar false r) None s O.
+
+(** does the SRE contain a non-greedy operator?  (then the overall match need not be longest) *)
+Fixpoint has_nongreedy (r : sre) : bool :=
+  match r with
+  | Eps | Fail | Chr _ | Anc _ => false
+  | Seq a b | Alt a b => has_nongreedy a || has_nongreedy b
+  | Star g a | Opt g a | Rep g _ _ a => negb g || has_nongreedy a
+  | Plus a | Sub a | NoCase a | Case a => has_nongreedy a
+  end.
+
 (* ------------------------------------------------------------------------------------------ *)
 (** * Submatches and the span validator *)
 
